@@ -89,6 +89,9 @@ TAdd ==
           \*  identical and the sums of squares agree up to reassociation)
           /\ IF exact THEN (IF run.sqExact THEN Ev.rid = ref.rid ELSE Ev.sid = ref.sid /\ Near(Ev.sumsqQ, ref.sumsqQ)) /\ Ev.recorded = ref.recorded
              ELSE run.big \/ (Near(Ev.sumQ, ref.sumQ) /\ Near(Ev.sumsqQ, ref.sumsqQ))   \* (the very long run is about the counters only)
+          \* sampled with the same state as the serial run (grid / weights at a resolution of 2^-12: insensitive to the order of the reduction)
+          /\ ("stateQ" \in DOMAIN Ev /\ "stateQ" \in DOMAIN ref) =>
+                (Len(Ev.stateQ) = Len(ref.stateQ) /\ \A k \in 1 .. Len(Ev.stateQ) : Near(Ev.stateQ[k], ref.stateQ[k]))
           /\ (i > 1) => Ev.recorded = Ev.derivedPrev                                   \* C19: sampled with the refinement of the reduced result i-1
           /\ st' = [st EXCEPT ![r].adds = i]
     /\ UNCHANGED <<run, serial, sig, entered, decision, texts>> /\ l' = l + 1
